@@ -91,7 +91,8 @@ def run(ctx, rep):
     check_styled_boxes(prog, rep)
     check_text_union(prog, rep)
     check_thick_segment(prog, rep)
-
+    from rules import axis
+    axis.run_for(ctx.program("default"), rep, 'R02.6', ['src/primitives/rectangle/styled.rs', 'src/primitives/triangle/styled.rs', 'src/primitives/polyline/styled.rs', 'src/primitives/line/styled.rs', 'src/text', 'src/mono_font', 'src/image'], 'bounding boxes and drawn rectangles are built per axis')
 
 def check_styled_boxes(prog, rep):
     """R02.3: the six closed shapes grow their box by exactly what stroke_area grows."""
